@@ -18,7 +18,7 @@ from pathlib import Path
 from typing import Any, Callable, Iterable
 
 VERIF = Path(__file__).resolve().parent.parent
-LEAN = VERIF / "lean"
+LEAN = Path(os.environ.get("VERIF_LEAN_DIR") or (VERIF / "lean")).resolve()
 REPO = Path(os.environ.get("VERIF_REPO", "/repo")).resolve()
 SEED = int(os.environ.get("VERIF_SEED", "0") or 0)
 DRIVER_EXE = LEAN / ".lake" / "build" / "bin" / "driver"
